@@ -162,6 +162,43 @@ impl<T: El> World<T> {
                     (View::CMut(c), "into_slice") => View::RustRef(<&[T]>::from(c)),
                     (View::CMut(c), "mut_to_ref") => View::CRef(CSliceRef::from(&c)),
                     (View::CMut(mut c), "reborrow") => View::CMut(CSliceMut::from(&mut c)),
+                    // the borrowing conversions leave the view they were applied to as it was: a second view is derived, read
+                    // through and dropped; the original stays
+                    (View::CMut(mut c), "reborrow_keep") => {
+                        let (p0, n0) = (c.as_ptr() as usize, c.len());
+                        {
+                            let second = CSliceMut::from(&mut c);
+                            if second.as_ptr() as usize != p0 || second.len() != n0 {
+                                self.last = json!({"kind":"derived view differs","n":second.len()});
+                                self.view = View::CMut(c);
+                                return;
+                            }
+                        }
+                        View::CMut(c)
+                    }
+                    (View::CMut(c), "ref_keep") => {
+                        let ok2 = { let second = CSliceRef::from(&c); second.as_ptr() as usize == c.as_ptr() as usize && second.len() == c.len() };
+                        if !ok2 {
+                            self.last = json!({"kind":"derived view differs","n":0});
+                            self.view = View::CMut(c);
+                            return;
+                        }
+                        View::CMut(c)
+                    }
+                    (View::CRef(c), "ref_keep") | (View::CRef(c), "as_slice_keep") => {
+                        let _n = c.as_slice().len();
+                        View::CRef(c)
+                    }
+                    (View::CMut(c), "as_slice_keep") => {
+                        let _n = c.as_slice().len();
+                        View::CMut(c)
+                    }
+                    (View::CMut(mut c), "as_slice_mut_keep") => {
+                        // (as_slice_mut ties its result to the view's own lifetime parameter: go through a raw pointer)
+                        let pc: *mut CSliceMut<'static, T> = &mut c;
+                        let _n = unsafe { (*pc).as_slice_mut().len() };
+                        View::CMut(c)
+                    }
                     (View::CMut(mut c), "as_slice_mut") => View::RustMut(ext_mut(c.as_slice_mut())),
                     (View::CMut(c), "into_mut_slice") => View::RustMut(<&mut [T]>::from(c)),
                     (View::RustRef(s), "to_c") => View::CRef(s.into()),
@@ -489,11 +526,11 @@ fn trace(out: &str, seed: u64, events: usize) {
             cand.push(json!({"op":"MakeView","off":off,"len":rng.below(n - off + 1),"mut":rng.chance(1, 2)}));
             cand.push(json!({"op":"MakeView","off":0,"len":n,"mut":rng.chance(1, 2)}));
             if vform == "c" {
-                for h in ["as_slice", "deref", "into_slice"] {
+                for h in ["as_slice", "deref", "into_slice", "as_slice_keep"] {
                     cand.push(json!({"op":"Convert","how":h}));
                 }
                 if vmut {
-                    for h in ["mut_to_ref", "reborrow", "as_slice_mut", "into_mut_slice"] {
+                    for h in ["mut_to_ref", "reborrow", "as_slice_mut", "into_mut_slice", "reborrow_keep", "as_slice_mut_keep", "ref_keep"] {
                         cand.push(json!({"op":"Convert","how":h}));
                     }
                 }
